@@ -27,6 +27,16 @@ PROPS = {
                                      'SD2 covered by C14 (path route) only'],
         floor={'quick': 1000, 'thorough': 10000},
     ),
+    'C05': dict(
+        runs=[dict(src='c05_rw_contract.c')],
+        level='exploration',
+        rule=('case = (container, encoding, channels, sample type, item/frame variant) x {read, write}; each read case checks ~6 positions x ~16 request '
+              'sizes against one sequential reference read, with exact-size canary-filled buffers under ASan and positions from the read-only hook; '
+              'write cases check return value, position and frame-count advance for ~13 sizes plus raw I/O. distinct = hash(format, ch, type, variant, position, size)'),
+        assumptions=COMMON_ASSUME + ['reference stream = one sequential read of the same file (its own correctness is C01/C06)',
+                                     'zero-fill of the tail after a PARTIAL read is recorded (partial_tail_* counters), not judged'],
+        floor={'quick': 500, 'thorough': 1000},
+    ),
 }
 
 NOT_APPLICABLE = {}
